@@ -636,6 +636,11 @@ impl<C: ImgCol> Item<C> {
     /// Feeds `pixels()` to `draw_iter` (styled primitives and polylines only).
     pub fn draw_pixels<D: DrawTarget<Color = C, Error = Fault>>(&self, t: &mut D) -> Option<Result<(), Fault>> {
         match self {
+            // (two equivalent routes: the target's draw_iter, or `PixelIteratorExt::draw` on the iterator)
+            Item::Styled(s, st) if st.stroke_width % 2 == 0 => {
+                use embedded_graphics::iterator::PixelIteratorExt;
+                Some(with_shape!(s, |p| p.into_styled(*st).pixels().draw(t)))
+            }
             Item::Styled(s, st) => Some(with_shape!(s, |p| t.draw_iter(p.into_styled(*st).pixels()))),
             Item::Polyline(p) => Some(t.draw_iter(Polyline::new(&p.pts).translate(p.offset).into_styled(p.style).pixels())),
             _ => None,
